@@ -11,6 +11,12 @@ MCM = "matrix/cubemeasure.py"
 SCM = "stripe/cubemeasure.py"
 
 
+def _index_space(ctx: Ctx):
+    from .common import slice_index_space
+
+    slice_index_space(ctx, "slice-index-space")
+
+
 def run(ctx: Ctx):
     ctx.explanation = (
         "Decision tables of the slice enumeration and of the slice-index expression (table k; selected plane of an MR "
@@ -27,6 +33,7 @@ def run(ctx: Ctx):
     partition_factory(ctx)
     arg_positions(ctx)
     cubeset(ctx)
+    _index_space(ctx)
 
 
 def enumeration(ctx: Ctx):
